@@ -71,4 +71,7 @@ def sortVals (lt : α → α → Bool) (vs : List α) : Option (List α) :=
 /-- `operator<` of the element type of the harness (`int`) -/
 def ltInt (a b : Int) : Bool := decide (a < b)
 
+/-- `operator<` of the harness' `Tagged {k, tag}` element type: compares the key only -/
+def ltKey (a b : Int × Int) : Bool := decide (a.1 < b.1)
+
 end Nstd.Seq
